@@ -11,7 +11,8 @@ RULE = ('real serial client (rtu/ascii/binary) <-> the REAL ModbusSerialServer o
         'client <-> real sync TCP server with the TLS framer; fault-free; every request class that predicts its reply size '
         '(FC 1-6, 15, 16, 23 and FC 8 with every answered diagnostic sub-function incl. 21 get/clear statistics), and on the '
         'serial framings also the request classes that do not predict (FC 0B, 0C, 11, 14, 15, 18, 2B/0E: sized from the '
-        'reply header on RTU, read-what-arrived elsewhere); systematic part: bit quantities 1..2000 and register quantities 1..125 (quick: all residues '
+        'reply header on RTU, read-what-arrived elsewhere), also as the first request after an unanswered one (force listen only) '
+        'to the same unit; systematic part: bit quantities 1..2000 and register quantities 1..125 (quick: all residues '
         'mod 8 around every boundary plus a stride; thorough: every quantity) plus address classes that produce exception '
         'replies. Oracle on the transport log: the byte counts the client reads from its port sum to exactly the frame the '
         'server wrote, no read returns short (= waited for bytes that never came), the transaction ends before the timeout, '
@@ -130,8 +131,20 @@ def quantities(fn, tier):
     return sorted(q for q in qs if 1 <= q <= lim)
 
 
+def silent_op():
+    """Force listen only (FC 08/04): by definition never answered - the next request to that unit finds the
+    client in its "this unit did not answer last time" read mode."""
+    return {'fn': 'diag', 'args': {'sub': 4, 'data': 0}, 'unit': 1, 'reply': {}, 'silent': True}
+
+
 def systematic(tier):
     for kind, framing in FRAMINGS:
+        if kind == 'serial':
+            # the request right after an unanswered one, for every request class
+            for fn in LIMITS:
+                yield mk(kind, framing, [silent_op(), op_for(fn, min(3, LIMITS[fn]))])
+                if fn not in NO_BAD_ADDR:
+                    yield mk(kind, framing, [silent_op(), op_for(fn, min(3, LIMITS[fn]), bad_addr=True)])
         for fn in LIMITS:
             if framing == 'tls' and fn in NO_PREDICTION:
                 continue        # no prediction, no frame extent on this framing: cannot be received at all (C08: KF-C08-TLS-REPLY)
@@ -151,6 +164,8 @@ def generate(rng, tier, index):
         q = rng.randint(1, LIMITS[fn])
         ops.append(op_for(fn, q, addr=rng.choice([0, 1, 7, 100]) if LIMITS[fn] + 100 < 2200 else 0,
                           bad_addr=rng.random() < 0.2 and fn not in NO_BAD_ADDR))
+    if kind == 'serial' and rng.random() < 0.15:
+        ops.insert(rng.randrange(len(ops)), silent_op())
     return mk(kind, framing, ops)
 
 
@@ -179,7 +194,8 @@ def execute(scn):
         srv_tx = b''.join(d for (seq, task, k_, name, d) in io if k_ == 'send' and name.startswith('srv') and lo < seq < hi)
         cli_rx = [(seq, d) for (seq, task, k_, name, d) in io if k_ == 'recv' and name.startswith('cli') and lo < seq < hi]
         if not srv_tx:
-            out['inconclusive'] = True
+            if not op.get('silent'):
+                out['inconclusive'] = True
             continue
         nontrivial = True
         try:
